@@ -28,6 +28,18 @@ def check_defined(rep, repo, rule, roots, label):
             rep.fail(rule, f.where, '%s: a flag has a value on every path to its test' % label,
                      got='%s is only ever assigned constants under a condition; at line %d it holds one of them or nothing at all (UnboundLocalError when the condition never held)' % (name, line),
                      want='a default assignment in front of the conditional ones', construct='flag %s without default in %s' % (name, f.qualname), loc='%s:%d' % (f.relpath, line))
+        for pname, line, how in lints.mutable_default_mutations(f):
+            n_bad += 1
+            rep.fail(rule, f.where, '%s: nothing is kept between calls in a default argument' % label, got='default argument %s of %s is changed in place at line %d (%s): the next call starts from what this one left' % (pname, f.qualname, line, how),
+                     want='%s=None and a fresh container inside' % pname, construct='mutable default %s filled in %s' % (pname, f.qualname), loc='%s:%d' % (f.relpath, line))
+        for line, acc, how in lints.partial_accumulations_in_try(f):
+            n_bad += 1
+            rep.fail(rule, f.where, '%s: an accumulation is complete or reported as failed' % label, got='%s is accumulated in a loop inside try ... %s, and the handler does not reset it: when the exception strikes, the sum of the iterations done so far is used' % (acc, how),
+                     want='test the condition per element (hasattr), or reset every accumulator in the handler', construct='partial accumulation of %s in %s' % (acc, f.qualname), loc='%s:%d' % (f.relpath, line))
+        for line, txt in lints.fancy_index_updates(f):
+            n_bad += 1
+            rep.fail(rule, f.where, '%s: every occurrence of an index is counted' % label, got='%s: with a list of indices numpy applies the update once per DISTINCT index' % txt, want='np.add.at(arr, idx, v) or a loop',
+                     construct='fancy-index update in %s' % f.qualname, loc='%s:%d' % (f.relpath, line))
         for name, line in lints.iterators_consumed_twice(f):
             n_bad += 1
             rep.fail(rule, f.where, '%s: a one-shot iterator is consumed once' % label, got='%s is a generator / iterator object; its second consumer (line %d) finds it exhausted and sees nothing' % (name, line),
